@@ -8,7 +8,7 @@ table = subprocess.check_output([sys.executable, os.path.join(HERE, 'tools', 'se
 TEXT = '''## 9. Seeded changes: which checks catch which
 --------------------------------------------------------------------------------
 
-Seven rounds of seeding were run with fresh sub-agents (the fourth and fifth after the coverage audit of every harness, the sixth after the statefulness audit).  Each agent got only the text of one
+Eight rounds of seeding were run with fresh sub-agents (the fourth and fifth after the coverage audit of every harness, the sixth after the statefulness audit, the eighth at the end of the session).  Each agent got only the text of one
 property and its own scratch git worktree of /repo (nothing from /verif), and had to produce a
 change that breaks the property, keeps the package importable and leaves the repository's test
 results exactly as they were (same 542 passing / 48 failing tests), plus a demonstration program.
@@ -82,6 +82,37 @@ The misses and what was changed (every one is caught now; no check was loosened 
   the options of a `dialect=`): almost no CSV option set passed `dialect=` and the reader was not given the same dialect; kind `dialect` passes the dialect as registered name, class or instance (3 standard and 14 harness dialects: QUOTE_NONE with escapechar, ALL, NONNUMERIC, doublequote off, other quote / delimiter / line terminator) alone and with 14 keyword overrides and reads back with exactly the same settings.  C15 (SignatureList memoises a packed copy, rebuilt only when the length
   changes): sequence scripts drew a dtype per member, so no SignatureList was uniform (the memo needs that), and had no length-preserving reordering; the new product stream crosses uniform-dtype SignatureList / list / AnnotatedSignatures with every bulk role and ten length-preserving changes (negative index, equal-length and stepped slices, reverse, swap, move, replace, in-place element write).  C16 (all-pairs kernel chunked at 1000 columns, mirror copy only for the last chunk: needs
   `--square` with 1002 or more queries): the largest square case had 30 genomes; stream `size-class` runs sides of 1001..2600 tiny signatures (classes of equal signatures make a 10^6-cell oracle cheap) through `--square`, `--qs X --rs X`, narrow tables and the library functions with NaN-prefilled `out=`.
+
+* Round 8: 11 of 20 caught at once, 2 more ended as a *framework error* and 7 were missed.  The framework errors (C06: a
+  file name ending in `.gz` is trusted before the magic number, so a plain file of that name dies in the gzip decoder;
+  C20: `SignatureList.sizes()` memoised and not reset by `insert`) were a defect of the runner, not of a harness: the
+  changed implementation raised an exception inside a batch function that has no handler for it (the unchanged code never
+  raises there), the run ended with exit 2 and no verdict.  `vf/main.py:run_kind` now treats an exception that escapes a
+  batch function as what it is -- the code no longer behaves as it did when the correspondence was validated: if it
+  comes out of the implementation's own frames the batch is re-run case by case, the input is isolated and reported as
+  a violation (the replay re-raises it), otherwise the correspondence is reported broken; the campaign then goes on,
+  and both changes are also caught by the property predicate itself (C06: a plain-content `*.gz` file has no signature
+  but its contigs have prefix-anchored k-mers; C20: equal collections compare unequal).  The misses: C01 (sequences
+  above 2^20 bytes searched in windows overlapping by k instead of prefix+k-1): the `big` stream did have a
+  2^20+300-byte sequence, but the occurrences it planted around the offset overwrote each other and no complete span
+  straddled it; `big-boundary` / `big-comb` plant non-overlapping, per-case unique spans at every alignment to 2^12 ..
+  2^22 and 10^6 (thorough 2^10 .. 2^24, 10^3 .. 10^7) and across every multiple of 2^12 and 10^4 of a 2 MB sequence.
+  C04 (ID -> genome map memoised per genome-set object, invalidated only when the number of genomes changes):
+  every genome set of the sequence streams was read-only and its rows never changed while the object was alive; steps `gsetrw` / `edit` and stream `genome-set-edited-between-uses` edit a set through its own writable session (identifiers exchanged, re-pointed, NULLed; members replaced, removed, added; commit or flush) between two constructions / matchings on the same objects, every call judged by the oracle on the table the set holds at that moment.  C05 (the HDF5 reader reads every slice into one scratch buffer kept on the object, so a block the
+  caller still holds is overwritten by the next read): no case held something read out of a holder while the holder
+  was read again; kind `blocks` keeps slices, index selections and items of 19 holder types alive across later reads
+  and bulk calls and judges every cell against `jaccarddist` of the stored pair (the C20 check catches the same change
+  as "a sub-collection taken earlier changed").  C11 (`pathlib.Path` written through `os.path.normpath`: a query
+  source file with an interior `..` comes back as another path): every source path the harness generated was absolute
+  and already normal; 28 path shapes now go through every archive / JSON kind and the CLI is driven with
+  `-l LIST --ldir DIR`.  C13 (`ProgressIterator.__exit__` returns the meter's `close()`, which the click / tqdm meters
+  make truthy: the sequential mode swallows the error of an unreadable file when a display-backed meter is used): that
+  combination occurred in well under one case per quick run; `var-progress-unreadable` crosses 12 meter values with
+  every mode and every position of the unreadable file, and `query_parse` is driven with them too.  C14
+  (`dump_signatures` of a container without k-mer parameters labels the file 11/ATGAC instead of failing): signature
+  files were only ever written from containers that state their parameters; 40 writing forms through the public API now
+  produce the pre-computed side and are judged as what the signatures were built with.  C18 (signature files above
+  1 MiB opened through the low-level h5py API, whose default access mode is read-write): every signature file used was the 257 KiB shipped one and the open-mode recorder did not see `h5py.File(<FileID>)`; stream `history-sigsize` builds signature files above 1, 4 and 16 MiB (also in the latest HDF5 format and with zero padding after the HDF5 data), kills a client process that holds the database open, and the recorder also wraps `h5py.h5f.open`.
 
 **Behaviour-preserving rewrites (the opposite experiment).**  A check that alarms on correct code is as
 useless as one that misses a defect, so after round 3 twenty fresh sub-agents (same isolation: the
